@@ -74,6 +74,15 @@ pub struct Stage<C> {
     pub name: &'static str,
     pub strategy: BoxedStrategy<C>,
     pub cases: u32,
+    /// shrinking budget (iterations); expensive cases use a small one
+    pub shrink: u32,
+}
+
+impl<C> Stage<C> {
+    pub fn shrink(mut self, n: u32) -> Self {
+        self.shrink = n;
+        self
+    }
 }
 
 #[derive(Default)]
@@ -179,8 +188,8 @@ pub fn run_property<P: Prop>(p: &P, tier: Tier) -> i32 {
     let total = Mutex::new(Stats::default());
     let violations: Mutex<Vec<Violation>> = Mutex::new(Vec::new());
 
-    let stage_cases: Vec<u32> = p.stages(tier).iter().map(|s| s.cases).collect();
-    for (stage_no, cases) in stage_cases.into_iter().enumerate() {
+    let stage_cases: Vec<(u32, u32)> = p.stages(tier).iter().map(|s| (s.cases, s.shrink)).collect();
+    for (stage_no, (cases, shrink_iters)) in stage_cases.into_iter().enumerate() {
         let cases = ((cases as f64) * scale()).ceil() as u32;
         let per = cases.div_ceil(nthreads as u32).max(1);
         std::thread::scope(|s| {
@@ -199,7 +208,7 @@ pub fn run_property<P: Prop>(p: &P, tier: Tier) -> i32 {
                             cases: per,
                             failure_persistence: None,
                             rng_seed: RngSeed::Fixed(wseed),
-                            max_shrink_iters: 4000,
+                            max_shrink_iters: shrink_iters,
                             max_shrink_time: 120_000,
                             verbose: 0,
                             ..Config::default()
@@ -475,5 +484,5 @@ pub fn replay<P: Prop>(p: &P, path: &str) -> i32 {
 
 /// Helper for strategies
 pub fn stage<C: Debug + 'static>(name: &'static str, s: impl Strategy<Value = C> + 'static, cases: u32) -> Stage<C> {
-    Stage { name, strategy: s.boxed(), cases }
+    Stage { name, strategy: s.boxed(), cases, shrink: 1500 }
 }
